@@ -165,6 +165,13 @@ func (st *Stack) reloadOnce(names []string, reuseOpen bool) error {
 		newTables = append(newTables, rd)
 	}
 
+	for i, rd := range newTables {
+		if rd.HashID() != st.cfg.HashID {
+			return fmt.Errorf("reftable: table %d has hash ID %q want hash ID %q", i,
+				rd.HashID(), st.cfg.HashID)
+		}
+	}
+
 	// success. Swap.
 	st.stack = newTables
 	newTables = nil
